@@ -155,6 +155,12 @@ def r11_2(cx):
         cl = list(fn.calls(MW + '::compute_len'))
         cx.check(bool(sorts) and bool(cl) and fn.pos_dominates(sorts[0].pos, cl[0].pos), 'sort-first:' + nm, fn, None, 'sorted before measured and stored',
                  fail_detail='elements are not sorted before use')
+    tag_order(cx)
+
+
+def tag_order(cx):
+    """the order of Tag (which the encoder sorts by and the decoder validates and searches with) is the order of the little-endian u32 value"""
+    prog = cx.prog
     cmpf = prog.fn('<rough_tlv::Tag as std::cmp::Ord>::cmp')
     r = cmpf.local_expr(0, []).strip()
     okc = r.kind == 'call' and r.op.endswith('::cmp') and len(r.args) == 2 and all(a.has_call('Tag::value') for a in r.args)
